@@ -435,7 +435,7 @@ func (s *session) note(format string, args ...interface{}) {
 		s.hist = append(s.hist, trim(line, 300))
 	}
 	if traceClass != "" {
-		s.tr = append(s.tr, line)
+		s.tr = append(s.tr, fmt.Sprintf("[+%dms] %s", time.Since(s.t0).Milliseconds(), line))
 	}
 }
 
@@ -471,6 +471,12 @@ func (s *session) blockedFail(ep *endpoint, descr string) {
 	ep.wedgeTold = true
 	s.c.Class("message-loop-blocked")
 	s.note("  -> MESSAGE LOOP BLOCKED: handler of %s parked in %s [%s], nobody can release it", ep.name, v.fn, v.state)
+	if os.Getenv("VERIF_C15_DEBUG") != "" {
+		fmt.Fprintf(os.Stderr, "C15 blockedFail at %v\n", time.Since(s.t0))
+	}
+	if s.keySuffix != "" && s.c.Known("C15/message-loop-blocked/"+v.fn+s.keySuffix) {
+		atomic.StoreInt32(&exclDuringSync, 1)
+	}
 	s.c.Failf("C15/message-loop-blocked/"+v.fn+s.keySuffix,
 		"the message loop of peer %q is blocked for good after %s: its handler is parked in %s [%s] below handleMsg (same stack in %d samples >= %v apart) and no goroutine exists that could release it (and no connected peer claims more than the node has, so no synchronisation can start).\nsession so far:\n  %s\nhandler:\n%s\nprotocol goroutines:\n%s",
 		ep.name, descr, v.fn, v.state, v.samples, blockGap, strings.Join(s.hist, "\n  "), trim(v.stack, 2500), v.dump)
@@ -1372,8 +1378,10 @@ func (s *session) startResponder(ep *endpoint) {
 				return
 			case rq := <-ep.reqs:
 				n++
-				if rq.code == codeGetBlocks && s.hold != nil {
-					// "during-sync" history: the momentums are handed over only when the main flow says so
+				if rq.code == codeGetBlocks && s.hold != nil && bytes.Contains(rq.data, s.hashAt(s.k0).Bytes()) {
+					// "during-sync" history: the momentum that is requested last (hashes arrive in descending
+					// order, so that is the lowest one; by then nothing is left to request from other
+					// peers) is handed over only when the main flow says so
 					s.holdOnce.Do(func() { close(s.holding) })
 					select {
 					case <-s.hold:
